@@ -7,6 +7,7 @@ import gymnasium
 from gymnasium.spaces import Discrete
 
 import core
+import gridw
 import mgr
 import wire
 from oracle import scripted, Tape
@@ -244,6 +245,24 @@ class C08Prop(core.Prop):
     def _grid_cases(self, tier, rng):
         import p_c03
         quick = tier == "quick"
+        # what random histories rarely do on a BIG grid (9x9 .. 12x12): X walks to a cell, Y joins it there and leaves
+        # again, then the reset - X has to be gone from the cell it walked to (a grid that keeps track of "cells in
+        # use" may lose track of a cell that is still occupied when one of two occupants leaves)
+        for k in range(3 if quick else 12):
+            side = rng.randint(9, 12)
+            r0 = rng.randint(1, side - 2)
+            c0 = rng.randint(1, side - 4)
+            mover = dict(gridw.AG_DEFAULT, enc=1, moving=True, move_range=1)
+            world = {"rows": side, "cols": side, "overlap": [[1, [1]]],
+                     "agents": [dict(mover, init_pos=[r0, c0]), dict(mover, init_pos=[r0, c0 + 2])] +
+                               [dict(gridw.AG_DEFAULT, enc=1) for _ in range(k % 3)]}
+            cfg = {"world": world, "attack": None,
+                   "place": {"kind": "position", "opts": {"no": False, "rand": False, "cluster": False, "scatter": False,
+                                                          "target": 0, "by_id": False, "barrier": [], "free": []}}}
+            pops = [p_c03.gen_reset(rng, world), ["move", "move", 0, [0, 1]], ["move", "move", 1, [0, -1]],
+                    ["move", "move", 1, [0, 1]]]
+            fops = [p_c03.gen_reset(rng, world), ["move", "move", 0, [0, 1]], ["move", "move", 1, [1, 0]]]
+            yield self._grid_case(cfg, pops, fops)
         made = 0
         while made < (250 if quick else 8000):
             cfg = p_c03.gen_cfg(rng)
